@@ -103,7 +103,7 @@ _EDGES = 'edge arrays have at least one bin'
 _BIN = dict(
     rank={'kedges': 1, 'muedges': 1, 'weights': 3, 'poles': 1},
     requires=[('weights.shape[0] >= n1d', _MESH), ('weights.shape[1] >= n1d', _MESH), ('weights.shape[2] >= n1d // 2 + 1', _MESH),
-              ('len(kedges) >= 2', _EDGES), ('n1d >= 0', 'mesh size')],
+              ('len(kedges) >= 2', _EDGES), ('n1d >= 0', 'mesh size'), ('nthread >= 1', 'nthread : "Number of numba threads to use"')],
     cursor_reasons={'muedges2': 'mu^2 = k^2/|k|^2 <= 1 <= muedges[-1]^2 ("mu ranges from 0 to 1"): the mu search stops before the last edge'},
 )
 CONTRACTS.update({
@@ -121,7 +121,8 @@ CONTRACTS.update({
     'abacusnbody/analysis/power_spectrum.py:linear_interp': dict(
         params={'xd': 'opaque', 'x': 'arr', 'y': 'arr'}, rank={'x': 1, 'y': 1},
         requires=[('len(x) >= 2', '"x entries are equidistant and monotonically increasing"'), ('len(y) == len(x)', 'y values at each x')],
-        float_bounds=[('np.int64(f)', '0', 'len(x) - 2', '"Assumes x entries are equidistant and monotonically increasing": x[0] < xd < x[-1] gives 0 <= floor((xd-x0)/dx) <= len-2')]),
+        float_bounds=[('np.int64(f)', '0', 'len(x) - 2', '"Assumes x entries are equidistant and monotonically increasing": x[0] < xd < x[-1] gives 0 <= floor((xd-x0)/dx) <= len-2',
+                       [['xd <= x[0]', 'xd < x[0]', 'x[0] >= xd', 'x[0] > xd'], ['xd >= x[-1]', 'x[-1] <= xd']])]),
     'abacusnbody/analysis/power_spectrum.py:get_delta_mu2': dict(
         params={'delta': 'arr', 'n1d': 'int', 'dtype_c': 'opaque', 'dtype_f': 'opaque'}, rank={'delta': 3},
         requires=[('delta.shape[0] >= n1d', 'delta : rfft mesh of shape (n1d, n1d, n1d//2+1)'), ('delta.shape[1] >= n1d', 'delta : rfft mesh'),
